@@ -535,6 +535,27 @@ def _env_legs():
         ("C13", "c13", "^TestScript$", "script", (60, 1500), False),
         ("C19", "c19", "^TestReport$", "report", (500, 20000), False),
     ]
+    # the default slog logger at Debug level; a build with the purego tag (portable code paths)
+    for pid, pkg, test, name, checks in [
+        ("C01", "c01", "^TestStream$", "stream", (600, 15000)), ("C01", "c01", "^TestBuffer$", "buffer", (6000, 60000)),
+        ("C02", "c02", "^TestStream$", "stream", (600, 15000)), ("C03", "c03", "^TestStream$", "stream", (1500, 30000)),
+        ("C04", "c04", "^TestMessage$", "message", (1000, 20000)), ("C05", "c05", "^TestMessage$", "message", (6000, 100000)),
+        ("C07", "c07", "^TestFrame$", "frame", (4000, 40000)), ("C08", "c08", "^TestCell$", "cell", (6000, 100000)),
+        ("C12", "c12", "^TestFault$", "fault", (1500, 30000)), ("C14", "c14", "^TestRandom$", "random", (20000, 300000)),
+        ("C15", "c15", "^TestHistory$", "history", (200, 3000)), ("C20", "c20", "^TestParallel$", "parallel", (100, 2000)),
+    ]:
+        legs = PROPS[pid]["legs"]
+        have = {l.name for l in legs}
+        if name + "-slog-debug" not in have:
+            legs.append(Leg(name + "-slog-debug", pkg, test, env={"VERIF_SLOG_DEBUG": "1"}, checks=checks, shards=(1, 8), tests=[name], replay_attempts=3))
+    for pid, pkg, test, name, checks in [
+        ("C04", "c04", "^TestMessage$", "message", (1000, 20000)), ("C05", "c05", "^TestMessage$", "message", (6000, 100000)),
+        ("C08", "c08", "^TestCell$", "cell", (6000, 100000)), ("C14", "c14", "^TestRandom$", "random", (20000, 300000)),
+    ]:
+        legs = PROPS[pid]["legs"]
+        have = {l.name for l in legs}
+        if name + "-purego" not in have:
+            legs.append(Leg(name + "-purego", pkg, test, tags="purego", checks=checks, shards=(1, 8), tests=[name], replay_attempts=3))
     for pid, pkg, test, name, c386, notz in table:
         legs = PROPS[pid]["legs"]
         have = {l.name for l in legs}
